@@ -66,6 +66,7 @@ CallResult(fn, f) ==          \* what the callable returns: <<>> stands for None
   CASE fn = "none"  -> <<>>
     [] fn = "const" -> <<75>>                                   \* "K"
     [] fn = "auto_seqid" -> T_auto \o f.seqid                     \* "autoincrement:<seqid>"
+    [] fn = "auto_colon" -> T_auto \o f.seqid \o <<58>> \o f.ftype  \* "autoincrement:<seqid>:<type>" - the base itself contains a colon
     [] fn = "name"  -> IF AttrHas(f.attrs, T_Name) /\ AttrGet(f.attrs, T_Name) # <<>> THEN AttrGet(f.attrs, T_Name)[1] ELSE <<>>
     [] fn = "type_start" -> f.ftype \o <<58>> \o IntStr(f.start)  \* "<type>:<start>"
 IsPrefix(p, s) == Len(p) <= Len(s) /\ SubSeq(s, 1, Len(p)) = p
